@@ -62,3 +62,85 @@ Fixpoint mismatches_from (i : N) (cs : list kcase) : list (N * list N) :=
               end
   end.
 Definition mismatches := mismatches_from 0.
+
+(* ---- size-boundary stream: blocks of hundreds/thousands of generated transactions ----------------------
+   The harness does not write such blocks out; it names them ([GGen n tag bad] = the n transactions
+   "k0000=tag", "k0001=tag", ... with, optionally, the one at index [fst bad] replaced by the text [snd bad])
+   and reports fingerprints (length and a polynomial hash) of the roots and of the final datastore instead
+   of the strings.  The model is run on the expanded history; the full strings are compared on the Go side
+   by the oracle. *)
+Definition pad4 (n : N) : string :=
+  let d := dec n in
+  append (match String.length d with 1 => "000" | 2 => "00" | 3 => "0" | _ => "" end)%nat d.
+
+Definition gen_tx (tag : string) (i : N) : string := append "k" (append (pad4 i) (String "="%char tag)).
+
+Definition gen_txs (n : N) (tag : string) (bad : option (N * string)) : list string :=
+  map (fun i => let i := N.of_nat i in
+                match bad with
+                | Some (j, t) => if (i =? j)%N then t else gen_tx tag i
+                | None => gen_tx tag i
+                end) (seq 0 (N.to_nat n)).
+
+Inductive gitem := GI (i : item) | GGen (n : N) (tag : string) (bad : option (N * string)).
+
+Definition expand (h : list gitem) : list item :=
+  map (fun g => match g with GI i => i | GGen n tag bad => IExec (gen_txs n tag bad) end) h.
+
+(* fingerprint: hash + length * 1000000007, hash = fold (h * 257 + byte) mod 1000000007 *)
+Fixpoint fp_aux (s : string) (h len : N) : N :=
+  match s with
+  | EmptyString => (h + len * 1000000007)%N
+  | String c r => fp_aux r ((h * 257 + byte c) mod 1000000007)%N (len + 1)%N
+  end.
+Definition fp (s : string) : N := fp_aux s 0 0.
+
+Inductive pout :=
+| PInit (r : option N) | PExec (r : option N) | PFinal (ok : bool) | PTxs (l : list string) | PNone.
+
+Definition proj (o : out) : pout :=
+  match o with
+  | OInit r => PInit (option_map fp r)
+  | OExec r => PExec (option_map fp r)
+  | OFinal b => PFinal b
+  | OTxs l => PTxs l
+  | ONone => PNone
+  end.
+
+Definition on_eqb (a b : option N) : bool :=
+  match a, b with Some x, Some y => (x =? y)%N | None, None => true | _, _ => false end.
+
+Definition pout_eqb (a b : pout) : bool :=
+  match a, b with
+  | PInit x, PInit y | PExec x, PExec y => on_eqb x y
+  | PFinal x, PFinal y => Bool.eqb x y
+  | PTxs x, PTxs y => list_eqb String.eqb x y
+  | PNone, PNone => true
+  | _, _ => false
+  end.
+
+Record bcase := {
+  bc_hist : list gitem;
+  bc_outs : list (pout * N);     (* per call: projected result, fingerprint of computeStateRoot afterwards *)
+  bc_count : N;                  (* number of keys in the final datastore *)
+  bc_dump : N                    (* fingerprint of "key:value;" over the whole final datastore, in key order *)
+}.
+
+(* 11 = results differ, 12 = roots after the calls differ, 13 = final datastore differs *)
+Definition check_big (c : bcase) : list N :=
+  let '(s, outs) := run init_st (expand (bc_hist c)) in
+  (if list_eqb pout_eqb (map (fun o => proj (fst o)) outs) (map fst (bc_outs c)) then [] else [11%N]) ++
+  (if list_eqb N.eqb (map (fun o => fp (snd o)) outs) (map snd (bc_outs c)) then [] else [12%N]) ++
+  (if (N.of_nat (List.length (s_db s)) =? bc_count c)%N && (fp (render (s_db s)) =? bc_dump c)%N then [] else [13%N]).
+
+Inductive xcase := Small (c : kcase) | Big (c : bcase).
+
+Fixpoint xmismatches_from (i : N) (cs : list xcase) : list (N * list N) :=
+  match cs with
+  | [] => []
+  | c :: r => match (match c with Small k => check_case k | Big b => check_big b end) with
+              | [] => xmismatches_from (i + 1) r
+              | l => (i, l) :: xmismatches_from (i + 1) r
+              end
+  end.
+Definition xmismatches := xmismatches_from 0.
